@@ -107,6 +107,15 @@ class C20(Check):
         return self.tmp
 
     def generate(self, rng, tier, shard, nshards):
+        # the file-name classes (common.FILE_NAME_CLASSES) are taken in turn by the cases that write to a path
+        turn = shard
+        for case in self._gen_cases(rng, tier, shard, nshards):
+            if case.get('target') == 'path':
+                case = dict(case, fsel=turn)
+                turn += 1
+            yield case
+
+    def _gen_cases(self, rng, tier, shard, nshards):
         n = 96 if tier == 'quick' else 10 ** 7
         bs = [1, 2, 3, 7, 64, 1000, 2000]
         comps = ['none', 'snappy', 'gzip', 'zstd']
@@ -147,7 +156,7 @@ class C20(Check):
             out.tags.append('rows-with-' + case['rowform'])
         schema = SCHEMAS[case['schema']]()
         from ..common import file_path
-        path = file_path(self._tmpdir(), 'f.parquet', '.parquet', (n + 2 * b) if case['target'] == 'path' else 0, out)
+        path = file_path(self._tmpdir(), 'f.parquet', '.parquet', case.get('fsel', 0) if case['target'] == 'path' else 0, out)
         if os.path.exists(path):
             os.unlink(path)
         P = rs.container.parquet
